@@ -220,6 +220,7 @@ def runPS (c : Case) : List String :=
     | "v0" => (psVariance Float32.sqrt k 0 s, out)
     | "v1" => (psVariance Float32.sqrt k 1 s, out)
     | "c" => (psCopy k s, out)
+    | "D" => (psShiftData k s, out)
     | "p" => (s, out ++ psPrint k s)
     | _ => (s, out ++ ["error unknown-op " ++ op])) (s0, [])
   ["case " ++ c.id] ++ lines
